@@ -11,8 +11,8 @@ Import ListNotations.
 Open Scope Z_scope.
 
 (* compact constructors for case literals *)
-Definition H (c o : Z) : note := mkNote c o None.
-Definition L (c o l : Z) : note := mkNote c o (Some l).
+Definition nh (c o : Z) : note := mkNote c o None.            (* a row without length (hit) *)
+Definition nl (c o l : Z) : note := mkNote c o (Some l).      (* a row with length (hold) *)
 Definition TL := mkTL.
 
 Inductive c17case := C17 (m : chart) (gap thr : Z) (out : option chart) (unchanged : bool).
